@@ -33,6 +33,7 @@ EngCore(E) == [cfg |-> E.cfg, st |-> E.st, pauser |-> E.pauser, whitelist |-> E.
 (* Query conformance: the answer of a query of the real contracts against   *)
 (* the specification's query operators (the oracles of the properties).     *)
 (***************************************************************************)
+SeqSet(s) == {s[i] : i \in 1..Len(s)}
 QNum(e, x) == IF Bad(x) THEN ~e.res.ok ELSE e.res.ok /\ e.res.val = x
 QRec(e, r) == IF ~r.ok THEN ~e.res.ok ELSE e.res.ok /\ e.res.val = r.val
 QueryOK(S, e) ==
@@ -55,6 +56,17 @@ QueryOK(S, e) ==
                                             /\ e.res.val.spread_fee = CalcFee(vm, a.amount).spread
                [] q = "is_over_spread_limit" -> QRec(e, IsOverSpread(vm, OraclePrice(S, c)))
                [] q = "is_over_fluctuation_limit" -> QRec(e, IsOverFluct(vm, S.blk.h, a.dir, a.amount))
+               [] q = "state" -> e.res.ok /\ e.res.val.quote_asset_reserve = vm.st.x /\ e.res.val.base_asset_reserve = vm.st.y
+                                          /\ e.res.val.total_position_size = vm.st.total /\ e.res.val.funding_rate = vm.st.rate
+                                          /\ e.res.val.next_funding_time = vm.st.next /\ e.res.val.open = vm.st.open
+               [] q = "config" -> e.res.ok /\ e.res.val.decimals = vm.cfg.D /\ e.res.val.toll_ratio = vm.cfg.toll
+                                           /\ e.res.val.spread_ratio = vm.cfg.spread /\ e.res.val.fluctuation_limit_ratio = vm.cfg.fluct
+                                           /\ e.res.val.funding_period = vm.cfg.period /\ e.res.val.base_asset_holding_cap = vm.cfg.hcap
+                                           /\ e.res.val.open_interest_notional_cap = vm.cfg.oicap
+                                           /\ e.res.val.spot_price_twap_interval = vm.cfg.twapint
+                                           /\ e.res.val.margin_engine = vm.cfg.engine /\ e.res.val.insurance_fund = vm.cfg.ifund
+                                           /\ e.res.val.pricefeed = vm.cfg.feed /\ e.res.val.base_asset = vm.cfg.base
+               [] q = "owner" -> e.res.ok /\ e.res.val.owner = vm.owner
                [] OTHER -> TRUE
      ELSE IF c = "engine" /\ "vamm" \in DOMAIN a /\ a.vamm \in DOMAIN S.vamm /\ "trader" \in DOMAIN a /\ a.trader \in ConfTraders
      THEN LET p == S.eng.pos[a.vamm][a.trader]
@@ -74,10 +86,45 @@ QueryOK(S, e) ==
                [] OTHER -> TRUE
      ELSE IF c = "engine" /\ q = "cumulative_premium_fraction" /\ a.vamm \in DOMAIN S.vamm
      THEN QNum(e, Cpf(S, a.vamm)) \/ (e.res.ok /\ e.res.val = Cpf(S, a.vamm))
+     ELSE IF c = "engine" /\ q = "state"
+     THEN e.res.ok /\ e.res.val.open_interest_notional = S.eng.st.oi /\ e.res.val.bad_debt = S.eng.st.bad_debt
+     ELSE IF c = "engine" /\ q = "config"
+     THEN e.res.ok /\ e.res.val.decimals = S.eng.cfg.D /\ e.res.val.initial_margin_ratio = S.eng.cfg.imr
+                   /\ e.res.val.maintenance_margin_ratio = S.eng.cfg.mmr /\ e.res.val.partial_liquidation_ratio = S.eng.cfg.plr
+                   /\ e.res.val.liquidation_fee = S.eng.cfg.liqfee /\ e.res.val.owner = S.eng.cfg.owner
+                   /\ e.res.val.insurance_fund = S.eng.cfg.ifund /\ e.res.val.fee_pool = S.eng.cfg.fpool
+     ELSE IF c = "engine" /\ q = "pauser"
+     THEN e.res.ok /\ e.res.val.pauser = S.eng.pauser
+     ELSE IF c = "engine" /\ q = "whitelist"
+     THEN e.res.ok /\ SeqSet(e.res.val.hooks) = SeqSet(S.eng.whitelist) /\ Len(e.res.val.hooks) = Len(S.eng.whitelist)
+     ELSE IF c = "engine" /\ q = "is_whitelisted"
+     THEN e.res.ok /\ e.res.val = (a.address \in SeqSet(S.eng.whitelist))
+     ELSE IF c = "engine" /\ q \in {"all_positions", "balance_with_funding_payment"} /\ a.trader \in ConfTraders
+          /\ S.ifund.has_list /\ SeqSet(S.ifund.vamms) \subseteq DOMAIN S.vamm
+     THEN LET held(v) == S.eng.pos[v][a.trader].exists
+              vs == SelectSeq(S.ifund.vamms, held)
+          IN IF q = "all_positions"
+             THEN e.res.ok /\ Len(e.res.val) = Len(vs)
+                  /\ \A i \in 1..Len(vs) : LET p == S.eng.pos[vs[i]][a.trader]
+                                            IN e.res.val[i].vamm = vs[i] /\ e.res.val[i].size = p.size
+                                               /\ e.res.val[i].margin = p.margin /\ e.res.val[i].notional = p.notional
+             ELSE e.res.ok /\ e.res.val = SumSeq([i \in 1..Len(S.ifund.vamms) |->
+                                                    MarginWithFunding(S, S.ifund.vamms[i], S.eng.pos[S.ifund.vamms[i]][a.trader])])
      ELSE IF c = "ifund"
      THEN CASE q = "is_vamm" -> e.res.ok /\ e.res.val.is_vamm = IsRegistered(S, a.vamm)
             [] q = "get_all_vamm" -> IF ~S.ifund.has_list THEN ~e.res.ok ELSE e.res.ok /\ e.res.val.vamm_list = S.ifund.vamms
             [] q = "get_vamm_status" -> a.vamm \in DOMAIN S.vamm => (e.res.ok /\ e.res.val.vamm_status = S.vamm[a.vamm].st.open)
+            [] q = "get_all_vamm_status" ->
+                 (S.ifund.has_list /\ SeqSet(S.ifund.vamms) \subseteq DOMAIN S.vamm)
+                 => (e.res.ok /\ e.res.val.vamm_list_status
+                                   = [i \in 1..Len(S.ifund.vamms) |-> <<S.ifund.vamms[i], S.vamm[S.ifund.vamms[i]].st.open>>])
+            [] q = "config" -> e.res.ok /\ e.res.val.engine = S.ifund.engine
+            [] q = "owner" -> e.res.ok /\ e.res.val.owner = S.ifund.owner
+            [] OTHER -> TRUE
+     ELSE IF c = "fpool"
+     THEN CASE q = "owner" -> e.res.ok /\ e.res.val.owner = S.fpool.owner
+            [] q = "get_token_length" -> e.res.ok /\ e.res.val.length = Len(S.fpool.tokens)
+            [] q = "get_token_list" -> e.res.ok /\ Len(e.res.val.token_list) = Len(S.fpool.tokens)
             [] OTHER -> TRUE
      ELSE IF c = "feed" /\ S.feed.kind = "real"
      THEN CASE q = "get_price" -> e.res.ok /\ e.res.val.price = RealGetPrice(S.feed, a.key).price
